@@ -669,7 +669,7 @@ def run(ctx, host=None):
     # rules of other properties that are necessary conditions of this one too: the round trip needs a consistent index (C03), correct stream classes (C07) and flag/encoding agreement (C10)
     if host is None:
         from ..report import host_modules
-        host_modules(chk, ctx, ['C03', 'C07', 'C10'])
+        host_modules(chk, ctx, ['C03', 'C07', 'C10', 'C08'])
 
     return chk.finish(
         explanation=('Static structural rules on every write and read path: tee loops (exit only on the empty chunk; each chunk to the sink and the hasher exactly once on every '
